@@ -359,6 +359,38 @@ Proof.
     rewrite X in L. discriminate L.
 Qed.
 
+(* ---------------- temporary tokens of the credential-validation requests ---------------- *)
+
+Lemma tmp_token_update c now uid tok exp :
+  tmp_token mac c now (update_cred_rec uid) = Some (tok, exp) ->
+  tok_restricted tok = true /\ f_level (tok_fields tok) = 0%N /\ f_uid (tok_fields tok) = (uid mod 2 ^ 64)%N /\
+  forall key' sn' now' r, 0 <= now -> authenticate mac key' sn' now' tok = TOk r -> now' < now + tmp_token_lifetime.
+Proof.
+  unfold tmp_token. intros G. pose proof G as G0. apply gen_secret_fields in G.
+  destruct G as (lt & EL & -> & F). unfold tok_restricted. rewrite F.
+  unfold issue_fields, update_cred_rec. cbn [f_features f_level f_uid g_features g_level g_uid].
+  repeat split.
+  intros key' sn' now' r H0 A. unfold gen_secret in G0. rewrite EL in G0. injection G0 as <-.
+  unfold effective_lifetime, update_cred_rec in EL. cbn [g_lifetime] in EL.
+  change (tmp_token_lifetime =? 0) with false in EL. change (tmp_token_lifetime <? 0) with false in EL.
+  injection EL as <-. apply issued_accept_bound in A; [exact A|exact H0|discriminate].
+Qed.
+
+Lemma tmp_token_create c now uid tok exp :
+  tmp_token mac c now (create_cred_rec uid) = Some (tok, exp) ->
+  tok_restricted tok = false /\ f_level (tok_fields tok) = 20%N /\ f_uid (tok_fields tok) = (uid mod 2 ^ 64)%N /\
+  forall key' sn' now' r, 0 <= now -> authenticate mac key' sn' now' tok = TOk r -> now' < now + tmp_token_lifetime.
+Proof.
+  unfold tmp_token. intros G. pose proof G as G0. apply gen_secret_fields in G.
+  destruct G as (lt & EL & -> & F). unfold tok_restricted. rewrite F.
+  unfold issue_fields, create_cred_rec. cbn [f_features f_level f_uid g_features g_level g_uid].
+  repeat split.
+  intros key' sn' now' r H0 A. unfold gen_secret in G0. rewrite EL in G0. injection G0 as <-.
+  unfold effective_lifetime, create_cred_rec in EL. cbn [g_lifetime] in EL.
+  change (tmp_token_lifetime =? 0) with false in EL. change (tmp_token_lifetime <? 0) with false in EL.
+  injection EL as <-. apply issued_accept_bound in A; [exact A|exact H0|discriminate].
+Qed.
+
 End ReloginThms.
 
 (* ---------------- statements the faithful model refutes ---------------- *)
